@@ -65,11 +65,11 @@ func checkString(c *core.Ctx, s string, desc, shape string) {
 			return
 		}
 	}
-	if tr := DecodeTrickle(enc.Bytes, nil); !tr.OK() || fmt.Sprint(tr.Val) != fmt.Sprint(func() interface{} { d := Decode(enc.Bytes, nil); return d.Val }()) {
-		report("decode", "other-reader", "decoding through a reader that returns one byte per Read fails or gives another value", fmt.Sprint(tr.Err, tr.Panic))
+	dec := Decode(enc.Bytes, nil)
+	if d := AgreeReaders(enc.Bytes, nil, RenderPlain(dec.Val), RenderPlain); d != "" && dec.OK() {
+		report("decode", "other-reader", d, "")
 		return
 	}
-	dec := Decode(enc.Bytes, nil)
 	if !dec.OK() {
 		report("decode", "error", fmt.Sprint(dec.Err, dec.Panic, dec.Runaway), hexs(enc.Bytes))
 		return
@@ -110,6 +110,10 @@ func checkBinary(c *core.Ctx, b []byte, desc, shape string) {
 		return
 	}
 	dec := Decode(enc.Bytes, nil)
+	if d := AgreeReaders(enc.Bytes, nil, RenderPlain(dec.Val), RenderPlain); d != "" && dec.OK() {
+		report("decode", "other-reader", d, "")
+		return
+	}
 	if !dec.OK() {
 		report("decode", "error", fmt.Sprint(dec.Err, dec.Panic, dec.Runaway), hexs(enc.Bytes))
 		return
@@ -154,6 +158,10 @@ func checkStrPositions(c *core.Ctx, s string, b []byte, desc string) {
 	d, ok := dec.Val.(*StrPos)
 	if !ok {
 		report("decode", "type", fmt.Sprintf("%T", dec.Val), "")
+		return
+	}
+	if dd := AgreeReaders(enc.Bytes, tm, RenderPlain(dec.Val), RenderPlain); dd != "" {
+		report("decode", "other-reader", dd, "")
 		return
 	}
 	bad := ""
@@ -278,13 +286,101 @@ func init() {
 						checkStrPositions(c, mkString(cl.unit, n), b, fmt.Sprintf("StrPos with %d x %q and %d octets at every position", n, cl.unit, n))
 					}
 				}
+				// a wide character at every offset around each chunk boundary, at every position
+				for _, b := range []int{strChunk, 2 * strChunk} {
+					for off := -3; off <= 3; off++ {
+						for _, w := range []string{"é", "中", "😀"} {
+							pos := b + off
+							s := mkString("a", pos) + w + mkString("z", 10)
+							checkStrPositions(c, s, []byte{1, 2, 3}, fmt.Sprintf("StrPos with %d x 'a', %q, 10 x 'z' at every position", pos, w))
+						}
+					}
+				}
 				c.Cover("positions")
 				c.Sample("StrPos{S:\"\", L:[\"\" m \"\" n \"\"], MK:{\"\":5}, MV:{k:\"\"}, B:[], LB:[[] [9] []]}")
+			}})
+			// very many distinct strings in one message: each must come back as itself (a table keyed by
+			// anything shorter than the content would merge two of them)
+			us = append(us, core.Unit{Name: "distinct-strings", Cost: 30, Run: func(c *core.Ctx) {
+				for _, n := range []int{70000, tierPick(tier, 300000, 1200000)} {
+					for _, form := range []string{"[]string", "map keys"} {
+						if !c.Begin() {
+							continue
+						}
+						c.NontrivialN(1)
+						desc := fmt.Sprintf("%d distinct 8-character strings as %s", n, form)
+						l := make([]string, n)
+						for i := range l {
+							l[i] = fmt.Sprintf("%08x", uint32(i)*2654435761)
+						}
+						var v interface{} = l
+						if form == "map keys" {
+							m := make(map[string]int32, n)
+							for i, s := range l {
+								m[s] = int32(i)
+							}
+							v = m
+						}
+						enc := Encode(v, nil)
+						dec := Decode(enc.Bytes, nil)
+						if !enc.OK() || !dec.OK() {
+							c.Report(&core.Violation{Stage: "roundtrip", Kind: "error", Shape: "distinct-strings", Message: msgClass(fmt.Sprint(enc.Err, enc.Panic, dec.Err, dec.Panic)), Case: desc})
+							continue
+						}
+						bad := ""
+						switch g := dec.Val.(type) {
+						case []string:
+							if len(g) != n {
+								bad = fmt.Sprintf("%d elements", len(g))
+							}
+							for i := 0; bad == "" && i < n; i++ {
+								if g[i] != l[i] {
+									bad = fmt.Sprintf("element %d is %q, written %q", i, g[i], l[i])
+								}
+							}
+						case []interface{}:
+							if len(g) != n {
+								bad = fmt.Sprintf("%d elements", len(g))
+							}
+							for i := 0; bad == "" && i < n; i++ {
+								if g[i] != interface{}(l[i]) {
+									bad = fmt.Sprintf("element %d is %v, written %q", i, g[i], l[i])
+								}
+							}
+						case map[interface{}]interface{}:
+							if len(g) != n {
+								bad = fmt.Sprintf("%d entries", len(g))
+							}
+							for i := 0; bad == "" && i < n; i++ {
+								if g[l[i]] != interface{}(int32(i)) {
+									bad = fmt.Sprintf("entry %q is %v, written %d", l[i], g[l[i]], i)
+								}
+							}
+						case map[string]int32:
+							if len(g) != n {
+								bad = fmt.Sprintf("%d entries", len(g))
+							}
+							for i := 0; bad == "" && i < n; i++ {
+								if x, ok := g[l[i]]; !ok || x != int32(i) {
+									bad = fmt.Sprintf("entry %q is %v, written %d", l[i], x, i)
+								}
+							}
+						default:
+							bad = fmt.Sprintf("decoded %T", dec.Val)
+						}
+						if bad != "" {
+							c.Report(&core.Violation{Stage: "decode", Kind: "mismatch", Shape: "distinct-strings", Message: msgClass(bad), Case: desc})
+						} else {
+							c.Outcome("distinct-strings-exact")
+						}
+					}
+				}
+				c.Cover("distinct-strings")
 			}})
 			return us
 		},
 		RequireCover: func(string) []string {
-			return []string{"positions", "str-boundary", "strlen:ascii", "strlen:3byte", "binlen:zero"}
+			return []string{"positions", "str-boundary", "distinct-strings", "strlen:ascii", "strlen:3byte", "binlen:zero"}
 		},
 	})
 }
